@@ -163,6 +163,35 @@ def uses_corner(rings, corners):
     return False
 
 
+def piece_of(rs, corners):
+    """the line can be (part of) the split boundary of the face with these corners"""
+    return check_pieces(rs, corners) in (None, "corner_missing", "cuts_do_not_match")
+
+
+def monotone_assignment(rows, plain, am, n):
+    """lines come polygon by polygon: face 0, 1, ... each with one line, or (antimeridian faces) with as
+    many consecutive lines as it has pieces; returns the face of every line or None"""
+    out, i = [], 0
+    for g in range(n):
+        if i >= len(rows):
+            return None
+        if g not in am:
+            if len(rows[i]) == 1 and ring_matches(rows[i][0], plain[g]):
+                out.append(g)
+                i += 1
+                continue
+            return None
+        for k in (1, 2, 3, 4, 5):
+            grp = [r for rs in rows[i:i + k] for r in rs]
+            if i + k <= len(rows) and check_pieces(grp, plain[g]) is None:
+                out += [g] * k
+                i += k
+                break
+        else:
+            return None
+    return out if i == len(rows) else None
+
+
 def shoelace(r):
     r = np.asarray(r, dtype=float)
     x, y = r[:, 0], r[:, 1]
@@ -178,8 +207,6 @@ def check_pieces(pieces, corners):
     seen = np.zeros(len(corners), dtype=bool)
     for pc_ in pieces:
         r = dedup_ring(pc_)
-        if len(r) < 3:
-            return "degenerate_piece"
         rc = np.vstack([r, r[:1]])
         for a, b in zip(rc[:-1], rc[1:]):
             # a segment along a pole (both ends at |lat| = 90) is a single point on the sphere
@@ -190,7 +217,8 @@ def check_pieces(pieces, corners):
             at_pole = abs(abs(v[1]) - 90.0) < t
             dl = np.abs(corners[:, 0] - v[0])
             dl = np.minimum(dl, np.abs(dl - 360.0))
-            hit = (dl < t) & (np.abs(corners[:, 1] - v[1]) < t)
+            # at a pole the longitude of a corner is immaterial
+            hit = ((dl < t) | (np.abs(np.abs(corners[:, 1]) - 90.0) < t)) & (np.abs(corners[:, 1] - v[1]) < t)
             if hit.any():
                 seen |= hit
             elif not (on_seam or at_pole):
@@ -346,7 +374,16 @@ def spec_single(ck, c, obj, idx, mc, call):
     faces_of_row = []
     bad = None
     all_faces = list(range(n))
-    for k, rs in enumerate(rows):
+    if exp == "line" and per == "split" and p is None:
+        mono = monotone_assignment(rows, plain, am, n)
+        if mono is not None:
+            faces_of_row = mono
+            rows_iter = []
+        else:
+            rows_iter = list(enumerate(rows))
+    else:
+        rows_iter = list(enumerate(rows))
+    for k, rs in rows_iter:
         if len(rs) == 1:
             m = match_face(rs[0], plain, projd, all_faces)
             if len(m) == 1:
@@ -722,7 +759,7 @@ def gen_cases(ck):
     if os.path.isdir(cdir):
         for fn in sorted(os.listdir(cdir)):
             cases.append(json.load(open(os.path.join(cdir, fn))))
-    for _ in range(12 if quick else 400):
+    for _ in range(12 if quick else 1000):
         cases.append({"kind": "am", "mesh": pick_mesh(rng, want_am=rng.choice([True, True, None, False]))})
     # every (export, level, periodic, engine, projection class) at least once per tier
     combos = []
@@ -734,7 +771,7 @@ def gen_cases(ck):
                         if per == "split" and pk != "none":
                             continue
                         combos.append((export, level, per, engine, pk))
-    for rep in range(1 if quick else 12):
+    for rep in range(1 if quick else 30):
         for export, level, per, engine, pk in combos:
             mc = pick_mesh(rng, want_am=True if rng.random() < 0.8 else None)
             only = {"none": [None], "proj0": [["Robinson", 0], ["Mollweide", 0], ["Mercator", 0]],
@@ -751,7 +788,7 @@ def gen_cases(ck):
         return {"export": export, "level": level, "var": var, "periodic": per,
                 "engine": (engine or "spatialpandas") if export == "gdf" else None, "proj": proj, "cache": cache,
                 "override": override}
-    for _ in range(2 if quick else 40):
+    for _ in range(2 if quick else 80):
         mc = pick_mesh(rng, want_am=True)
         shifted_p = pick_proj(rng, mc, only=[["Robinson", 45], ["Robinson", -120], ["Mollweide", 90], ["EqualEarth", 60],
                                              ["Orthographic", 30, 20], ["Orthographic", -100, -40]])
@@ -784,7 +821,7 @@ def gen_cases(ck):
                 cases.append({"kind": "hist", "mesh": mc, "steps": [call(export, "grid", "ignore", None),
                                                                     call(export, "grid", "exclude", None),
                                                                     call(export, "grid", "ignore", None, override=True)]})
-    for _ in range(40 if quick else 1500):
+    for _ in range(40 if quick else 4000):
         mc = pick_mesh(rng, want_am=True if rng.random() < 0.8 else None)
         kind = rng.choice(["gdf", "gdf", "poly", "poly", "line"])
         k = rng.randrange(1, 5)
